@@ -1,4 +1,4 @@
-\* random behaviours for direction A (run with -simulate): full universe, capacity 2 (evictions), property version
+\* scripted scenarios 15-19 (capacity 3, shorter-but-heavier reorgs allowed)
 SPECIFICATION MCScriptSpec
 CONSTANTS
   Atoms <- AtomsFull
@@ -20,6 +20,8 @@ CONSTANTS
   FeeOnRemainder = TRUE
   EvictMode = "nodeps"
   ReconcileMature = TRUE
+  NrdEnabled = FALSE
+  NrdHeight = 9
   ShortReorg = TRUE
   MaxBlocks = 6
   MaxSteps = 40
